@@ -12,6 +12,9 @@ import logging
 from concurrent.futures import Future
 
 
+ORDER_COST = 0  # cost of running a pending job other than the oldest
+
+
 class Job:
     __slots__ = ("label", "fut", "fn", "args", "kwargs", "seq")
 
@@ -64,7 +67,7 @@ class CtlPool:
         else:
             job.fut.set_result(r)
 
-    def drive(self, final, ch, max_steps=10000, order_cost=1):
+    def drive(self, final, ch, max_steps=10000):
         """
         ``final`` is whatever process_graphql_query returned (a Future, or a plain value when nothing
         was deferred).  Returns (status, value), status in {"ok","exc","stuck","horizon"}.
@@ -89,7 +92,7 @@ class CtlPool:
                 if not self.pending:
                     return ("stuck", None)
                 n = len(self.pending)
-                c = ch.choose(n, [0] + [order_cost] * (n - 1)) if n > 1 else 0
+                c = ch.choose(n, [0] + [ORDER_COST] * (n - 1)) if n > 1 else 0
                 job = self.pending.pop(c)
                 self._run(job)
             # run leftover jobs (siblings of a failed gather keep running) in FIFO order
